@@ -390,18 +390,9 @@ func (tc *tableCollector) collectFromNode(node ast.Node) {
 				tc.tables[join.Right.Name] = true
 			}
 		}
-		if n.With != nil {
-			tc.collectFromNode(n.With)
-		}
 	case *ast.InsertStatement:
 		if n.TableName != "" {
 			tc.tables[n.TableName] = true
-		}
-		if n.Query != nil {
-			tc.collectFromNode(n.Query)
-		}
-		if n.With != nil {
-			tc.collectFromNode(n.With)
 		}
 	case *ast.UpdateStatement:
 		if n.TableName != "" {
@@ -412,9 +403,6 @@ func (tc *tableCollector) collectFromNode(node ast.Node) {
 				tc.tables[from.Name] = true
 			}
 		}
-		if n.With != nil {
-			tc.collectFromNode(n.With)
-		}
 	case *ast.DeleteStatement:
 		if n.TableName != "" {
 			tc.tables[n.TableName] = true
@@ -424,9 +412,6 @@ func (tc *tableCollector) collectFromNode(node ast.Node) {
 				tc.tables[using.Name] = true
 			}
 		}
-		if n.With != nil {
-			tc.collectFromNode(n.With)
-		}
 	case *ast.MergeStatement:
 		if n.TargetTable.Name != "" {
 			tc.tables[n.TargetTable.Name] = true
@@ -434,18 +419,10 @@ func (tc *tableCollector) collectFromNode(node ast.Node) {
 		if n.SourceTable.Name != "" {
 			tc.tables[n.SourceTable.Name] = true
 		}
-	case *ast.WithClause:
-		for _, cte := range n.CTEs {
-			tc.collectFromNode(cte)
-		}
-	case *ast.CommonTableExpr:
-		tc.collectFromNode(n.Statement)
-	case *ast.SetOperation:
-		tc.collectFromNode(n.Left)
-		tc.collectFromNode(n.Right)
 	}
 
-	// Recursively collect from children
+	// Recursively collect from children (WITH clauses, CTE bodies, INSERT ... SELECT sources and
+	// the arms of set operations are children: visiting them here, once, keeps the walk linear)
 	for _, child := range node.Children() {
 		tc.collectFromNode(child)
 	}
@@ -481,18 +458,9 @@ func (qtc *qualifiedTableCollector) collectFromNode(node ast.Node) {
 				qtc.addTable(join.Right.Name)
 			}
 		}
-		if n.With != nil {
-			qtc.collectFromNode(n.With)
-		}
 	case *ast.InsertStatement:
 		if n.TableName != "" {
 			qtc.addTable(n.TableName)
-		}
-		if n.Query != nil {
-			qtc.collectFromNode(n.Query)
-		}
-		if n.With != nil {
-			qtc.collectFromNode(n.With)
 		}
 	case *ast.UpdateStatement:
 		if n.TableName != "" {
@@ -503,9 +471,6 @@ func (qtc *qualifiedTableCollector) collectFromNode(node ast.Node) {
 				qtc.addTable(from.Name)
 			}
 		}
-		if n.With != nil {
-			qtc.collectFromNode(n.With)
-		}
 	case *ast.DeleteStatement:
 		if n.TableName != "" {
 			qtc.addTable(n.TableName)
@@ -515,9 +480,6 @@ func (qtc *qualifiedTableCollector) collectFromNode(node ast.Node) {
 				qtc.addTable(using.Name)
 			}
 		}
-		if n.With != nil {
-			qtc.collectFromNode(n.With)
-		}
 	case *ast.MergeStatement:
 		if n.TargetTable.Name != "" {
 			qtc.addTable(n.TargetTable.Name)
@@ -525,18 +487,10 @@ func (qtc *qualifiedTableCollector) collectFromNode(node ast.Node) {
 		if n.SourceTable.Name != "" {
 			qtc.addTable(n.SourceTable.Name)
 		}
-	case *ast.WithClause:
-		for _, cte := range n.CTEs {
-			qtc.collectFromNode(cte)
-		}
-	case *ast.CommonTableExpr:
-		qtc.collectFromNode(n.Statement)
-	case *ast.SetOperation:
-		qtc.collectFromNode(n.Left)
-		qtc.collectFromNode(n.Right)
 	}
 
-	// Recursively collect from children
+	// Recursively collect from children (WITH clauses, CTE bodies, INSERT ... SELECT sources and
+	// the arms of set operations are children: visiting them here, once, keeps the walk linear)
 	for _, child := range node.Children() {
 		qtc.collectFromNode(child)
 	}
@@ -602,18 +556,9 @@ func (cc *columnCollector) collectFromNode(node ast.Node) {
 				cc.collectFromExpression(ob.Expression)
 			}
 		}
-		if n.With != nil {
-			cc.collectFromNode(n.With)
-		}
 	case *ast.InsertStatement:
 		for _, col := range n.Columns {
 			cc.collectFromExpression(col)
-		}
-		if n.Query != nil {
-			cc.collectFromNode(n.Query)
-		}
-		if n.With != nil {
-			cc.collectFromNode(n.With)
 		}
 	case *ast.UpdateStatement:
 		for _, assignment := range n.Assignments {
@@ -623,15 +568,9 @@ func (cc *columnCollector) collectFromNode(node ast.Node) {
 		if n.Where != nil {
 			cc.collectFromExpression(n.Where)
 		}
-		if n.With != nil {
-			cc.collectFromNode(n.With)
-		}
 	case *ast.DeleteStatement:
 		if n.Where != nil {
 			cc.collectFromExpression(n.Where)
-		}
-		if n.With != nil {
-			cc.collectFromNode(n.With)
 		}
 	case *ast.UpdateExpression:
 		cc.collectFromExpression(n.Column)
@@ -646,18 +585,10 @@ func (cc *columnCollector) collectFromNode(node ast.Node) {
 				cc.columns[col] = true
 			}
 		}
-	case *ast.WithClause:
-		for _, cte := range n.CTEs {
-			cc.collectFromNode(cte)
-		}
-	case *ast.CommonTableExpr:
-		cc.collectFromNode(n.Statement)
-	case *ast.SetOperation:
-		cc.collectFromNode(n.Left)
-		cc.collectFromNode(n.Right)
 	}
 
-	// Recursively collect from children
+	// Recursively collect from children (WITH clauses, CTE bodies, INSERT ... SELECT sources and
+	// the arms of set operations are children: visiting them here, once, keeps the walk linear)
 	for _, child := range node.Children() {
 		cc.collectFromNode(child)
 	}
@@ -769,18 +700,9 @@ func (qcc *qualifiedColumnCollector) collectFromNode(node ast.Node) {
 				qcc.collectFromExpression(ob.Expression)
 			}
 		}
-		if n.With != nil {
-			qcc.collectFromNode(n.With)
-		}
 	case *ast.InsertStatement:
 		for _, col := range n.Columns {
 			qcc.collectFromExpression(col)
-		}
-		if n.Query != nil {
-			qcc.collectFromNode(n.Query)
-		}
-		if n.With != nil {
-			qcc.collectFromNode(n.With)
 		}
 	case *ast.UpdateStatement:
 		for _, assignment := range n.Assignments {
@@ -790,15 +712,9 @@ func (qcc *qualifiedColumnCollector) collectFromNode(node ast.Node) {
 		if n.Where != nil {
 			qcc.collectFromExpression(n.Where)
 		}
-		if n.With != nil {
-			qcc.collectFromNode(n.With)
-		}
 	case *ast.DeleteStatement:
 		if n.Where != nil {
 			qcc.collectFromExpression(n.Where)
-		}
-		if n.With != nil {
-			qcc.collectFromNode(n.With)
 		}
 	case *ast.UpdateExpression:
 		qcc.collectFromExpression(n.Column)
@@ -813,18 +729,10 @@ func (qcc *qualifiedColumnCollector) collectFromNode(node ast.Node) {
 				qcc.addColumn("", col)
 			}
 		}
-	case *ast.WithClause:
-		for _, cte := range n.CTEs {
-			qcc.collectFromNode(cte)
-		}
-	case *ast.CommonTableExpr:
-		qcc.collectFromNode(n.Statement)
-	case *ast.SetOperation:
-		qcc.collectFromNode(n.Left)
-		qcc.collectFromNode(n.Right)
 	}
 
-	// Recursively collect from children
+	// Recursively collect from children (WITH clauses, CTE bodies, INSERT ... SELECT sources and
+	// the arms of set operations are children: visiting them here, once, keeps the walk linear)
 	for _, child := range node.Children() {
 		qcc.collectFromNode(child)
 	}
@@ -943,20 +851,11 @@ func (fc *functionCollector) collectFromNode(node ast.Node) {
 				fc.collectFromExpression(ob.Expression)
 			}
 		}
-		if n.With != nil {
-			fc.collectFromNode(n.With)
-		}
 	case *ast.InsertStatement:
 		for _, row := range n.Values {
 			for _, val := range row {
 				fc.collectFromExpression(val)
 			}
-		}
-		if n.Query != nil {
-			fc.collectFromNode(n.Query)
-		}
-		if n.With != nil {
-			fc.collectFromNode(n.With)
 		}
 	case *ast.UpdateStatement:
 		for _, assignment := range n.Assignments {
@@ -966,30 +865,16 @@ func (fc *functionCollector) collectFromNode(node ast.Node) {
 		if n.Where != nil {
 			fc.collectFromExpression(n.Where)
 		}
-		if n.With != nil {
-			fc.collectFromNode(n.With)
-		}
 	case *ast.DeleteStatement:
 		if n.Where != nil {
 			fc.collectFromExpression(n.Where)
 		}
-		if n.With != nil {
-			fc.collectFromNode(n.With)
-		}
 	case *ast.UpdateExpression:
 		fc.collectFromExpression(n.Value)
-	case *ast.WithClause:
-		for _, cte := range n.CTEs {
-			fc.collectFromNode(cte)
-		}
-	case *ast.CommonTableExpr:
-		fc.collectFromNode(n.Statement)
-	case *ast.SetOperation:
-		fc.collectFromNode(n.Left)
-		fc.collectFromNode(n.Right)
 	}
 
-	// Recursively collect from children
+	// Recursively collect from children (WITH clauses, CTE bodies, INSERT ... SELECT sources and
+	// the arms of set operations are children: visiting them here, once, keeps the walk linear)
 	for _, child := range node.Children() {
 		fc.collectFromNode(child)
 	}
